@@ -82,7 +82,7 @@ def build_cases(tier):
     cases = []
     k2 = corpus.k2_ops()
     k2m = corpus.k2_matrix()
-    for o in single_ops + wops + pair_ops + k2 + k2m:
+    for o in single_ops + wops + pair_ops + k2 + k2m + corpus.fragment_overlap_ops():
         cases.append((o, {}, "none"))
     # configuration product on the single-feature sub-corpus (every grammar production once)
     step = 1 if tier != "quick" else 3
